@@ -1,1 +1,86 @@
-From RxVerif Require Import Base.Prelude Ops.Machine Ops.Multi Ops.Combinators.
+(* C13 -- multi-source combinators follow their pairing rules.
+   amb: refinement to [amb_spec] for EVERY input sequence.  zip: the pairing
+   invariant for EVERY sequence of deliveries, plus its emission and completion
+   rules.  combine_latest / with_latest_from / fork_join: their emission and
+   completion rules read off the machines (which the K2 correspondence ties to
+   the code), stated as step lemmas. *)
+From RxVerif Require Import Base.Prelude Ops.Machine Ops.Multi Ops.MultiFacts Ops.RunLemmas
+  Ops.Combinators Ops.MergeFacts Ops.CombineFacts.
+
+Theorem C13_amb_refines_spec : forall A n (ins : list (Z * inp A)),
+  temitted (fst (run (x_amb n) ins)) = amb_spec n None 1 ins.
+Proof. exact @amb_refines_spec. Qed.
+Print Assumptions C13_amb_refines_spec.
+
+(* amb unsubscribes the others at the winner's first notification *)
+Theorem C13_amb_losers_unsubscribed_at_once : forall A (k : nat) (others live : list nat) ts,
+  NoDup live -> In k live -> ~ In k others -> (forall j, In j live -> j = k \/ In j others) ->
+  fst (apply_cmds (B:=A) (RState live ts false) (map CUnsub others)) = RState [k] ts false.
+Proof. exact @apply_unsub_others. Qed.
+Print Assumptions C13_amb_losers_unsubscribed_at_once.
+
+Theorem C13_zip_pairing : forall A (d : A) n (ins : list (nat * A)),
+  Forall (fun p => (fst p < n)%nat) ins ->
+  let '(st, outs) := zip_feed n (repeat [] n, repeat false n) ins [] in
+  forall k, (k < n)%nat -> proj k ins = col d k outs ++ nth k (fst st) [].
+Proof. exact @zip_pairing. Qed.
+Print Assumptions C13_zip_pairing.
+
+Theorem C13_zip_emits_iff_every_source_has_an_element : forall A n queues done now k (x : A),
+  cemits (snd (fst (x_step (x_zip n) (queues, done) now (ISrc k (Next x))))) <> [] <->
+  all_nonempty (nth_set k (nth k queues [] ++ [x]) queues) = true.
+Proof. exact @zip_emits_iff_all_have. Qed.
+Print Assumptions C13_zip_emits_iff_every_source_has_an_element.
+
+Theorem C13_zip_completes_when_completed_source_has_nothing_buffered : forall A n queues done now k,
+  snd (x_step (x_zip (A:=A) n) (queues, done) now (ISrc k Done))
+  = if Nat.eqb (length (nth k queues [])) 0 then Complete else Cont.
+Proof. exact @zip_completion_rule. Qed.
+Print Assumptions C13_zip_completes_when_completed_source_has_nothing_buffered.
+
+(* combine_latest: on an element, emits the tuple of latest values iff every
+   source has emitted (now or before) *)
+Theorem C13_combine_latest_rule : forall A n values hva done now k (x : A),
+  let values1 := nth_set k (Some x) values in
+  let all_have := hva || forallb (fun v => match v with Some _ => true | None => false end) values1 in
+  cemits (snd (fst (x_step (x_combine_latest n) (values, hva, done) now (ISrc k (Next x)))))
+  = if all_have then [flat_map (fun v => match v with Some y => [y] | None => [] end) values1] else [].
+Proof. intros. cbn [x_combine_latest x_step]. subst values1 all_have. destruct (_ || _); reflexivity. Qed.
+Print Assumptions C13_combine_latest_rule.
+
+(* with_latest_from: only the primary source (0) triggers emissions, and only
+   once every other source has a value; the others just store *)
+Theorem C13_with_latest_from_rule : forall A n values now (x : A),
+  cemits (snd (fst (x_step (x_with_latest_from n) values now (ISrc 0%nat (Next x)))))
+  = if forallb (fun v => match v with Some _ => true | None => false end) values
+    then [x :: flat_map (fun v => match v with Some y => [y] | None => [] end) values] else [].
+Proof. intros. cbn [x_with_latest_from x_step]. destruct (forallb _ values); reflexivity. Qed.
+Theorem C13_with_latest_from_others_silent : forall A n values now j (e : ev A),
+  cemits (snd (fst (x_step (x_with_latest_from n) values now (ISrc (S j) e)))) = [].
+Proof. intros. destruct e; reflexivity. Qed.
+Print Assumptions C13_with_latest_from_rule.
+Print Assumptions C13_with_latest_from_others_silent.
+
+(* fork_join: a source completing empty completes at once; otherwise the tuple
+   of last values is emitted when the last source completes *)
+Theorem C13_fork_join_rule : forall A n values done now k,
+  x_step (x_fork_join (A:=A) n) (values, done) now (ISrc k Done)
+  = let done1 := nth_set k true done in
+    match nth k values None with
+    | None => ((values, done1), [], Complete)
+    | Some _ => if forallb (fun d => d) done1
+                then ((values, done1),
+                      [CEmit (flat_map (fun v => match v with Some y => [y] | None => [] end) values)], Complete)
+                else ((values, done1), [], Cont)
+    end.
+Proof. reflexivity. Qed.
+Print Assumptions C13_fork_join_rule.
+
+Example C13_witness_zip :
+  let '(st, outs) := zip_feed 2 (repeat [] 2, repeat false 2) [(0%nat, 1); (0%nat, 2); (1%nat, 10); (1%nat, 20); (1%nat, 30)] [] in
+  outs = [[1; 10]; [2; 20]] /\ fst st = [[]; [30]].
+Proof. vm_compute. split; reflexivity. Qed.
+Example C13_witness_amb :
+  temitted (fst (run (x_amb 3) [(0, ISrc 1%nat (Next 5)); (0, ISrc 0%nat (Next 9)); (0, ISrc 1%nat Done)]))
+  = [(1%nat, Next 5); (3%nat, Done)].
+Proof. vm_compute. reflexivity. Qed.
